@@ -71,10 +71,24 @@ def main() -> int:
     ap.add_argument("--replay")
     ap.add_argument("--selftest", action="store_true")
     ap.add_argument("--all", action="store_true")
+    ap.add_argument("--extras", action="store_true", help="specification growth beyond the listed properties (spec/EngineExtras.tla); not in MANIFEST.json")
     a = ap.parse_args()
     seed = int(os.environ.get("VERIF_SEED", "20261001"))
     if a.selftest:
         return selftest()
+    if a.extras:
+        try:
+            from . import extras
+            ctx = core.Ctx("X01", a.tier, seed)
+            extras.run(ctx)
+            rc = ctx.finish()
+            ev = core.VERIF / "evidence" / "X01.json"       # not a listed property: its evidence lives with the notes
+            if ev.exists():
+                ev.replace(core.VERIF / "notes" / "extras-evidence.json")
+            return rc
+        except MachineryError as ex:
+            print(f"[X01] MACHINERY FAILURE: {ex}", file=sys.stderr)
+            return 2
     if a.all:
         worst = 0
         for p in PROPS:
